@@ -320,7 +320,7 @@ class Pipe:
         d_bot = O.disp_delay_s(dm, lo, fr) * self.r
         # keep the chirp phase within what float64 can resolve (generator bound of C05), and avoid ties
         fz = max(O.delay_fuzz(dm, f, fr, self.r) for f in (lo, hi))
-        if any(abs(d - round(d)) < fz for d in (d_top, d_bot) if d != 0):
+        if any(abs(d - round(d)) < fz for d in (d_top, d_bot) if dm != 0):
             self.st.label("skip_cdd_bound")
             return
         if max(abs(d_top), abs(d_bot)) > 4 * self.L + 8:
@@ -333,7 +333,7 @@ class Pipe:
             d_top = O.disp_delay_s(dm, hi, fr) * self.r
             d_bot = O.disp_delay_s(dm, lo, fr) * self.r
             fz = max(O.delay_fuzz(dm, f, fr, self.r) for f in (lo, hi))
-            if any(abs(d - round(d)) < fz for d in (d_top, d_bot) if d != 0):
+            if any(abs(d - round(d)) < fz for d in (d_top, d_bot) if dm != 0):
                 self.st.label("skip_cdd_bound")
                 return
         with lib("coherent_dedispersion"):
